@@ -3,6 +3,11 @@
 
      (9 1 shape k)                      ShapeIterator::from(shape), k calls of next()
          result: (len0 (step…))         step = (item len_after) ; item = () | ((i…))
+     (9 4 shape k)                      ShapeIterator::from(shape), k calls of next(), items only
+         result: (item…)                 (for index spaces larger than usize::MAX, where the
+                                         element count — and hence size_hint — is not representable:
+                                         the clean code's size_hint overflows there, differently per
+                                         build profile, so len() is not observed for these shapes)
      (9 2 kind wi src k)                tensor iterators over a source term (Model/TSource.v)
          kind 0 TensorIterator 1 TensorReferenceIterator 2 TensorReferenceMutIterator
               3 TensorOwnedIterator ; wi = 1: the WithIndex variant
@@ -94,8 +99,16 @@ Definition c09_miter (order mode : nat) (wi : bool) (src : msrc Z) (arg : N) (k 
   | _ => soutcome (fun it => c09_line mode it k) (Ok (diagonal_iter_from src))
   end.
 
+Definition c09_shapeiter_items (sh : shape) (k : nat) : sx :=
+  slist (fun st => sopt (slist sN) (fst st)) (fst (drive iter_next (fun _ => 0) k (shape_iter_from sh))).
+
 Definition run_c09 (args : list sx) : sx :=
   match args with
+  | [SZ 4%Z; sh; k] =>
+      match dshape sh, dnat k with
+      | Some sh, Some k => c09_shapeiter_items sh k
+      | _, _ => bad_case
+      end
   | [SZ 1%Z; sh; k] =>
       match dshape sh, dnat k with
       | Some sh, Some k => c09_shapeiter sh k
